@@ -1,4 +1,617 @@
 package main
 
-func cmdCheck(args []string) int    { return 2 }
-func cmdSelftest(args []string) int { return 2 }
+// gvc check: decide one property, write evidence, report violations / known findings.
+
+import (
+	"encoding/json"
+	"flag"
+	"fmt"
+	"os"
+	"path/filepath"
+	"runtime"
+	"sort"
+	"strconv"
+	"strings"
+	"time"
+)
+
+type KnownFinding struct {
+	Property   string `json:"property"`
+	Obligation string `json:"obligation"`
+	Function   string `json:"function"`
+	Class      string `json:"class"` // predicate over the function's inputs (contract syntax) describing the failing inputs
+	What       string `json:"what"`
+	Witness    string `json:"witness,omitempty"`
+}
+
+type KnownFile struct {
+	Findings []KnownFinding `json:"findings"`
+	Fixed    []string       `json:"fixed"`
+}
+
+type PropMeta struct {
+	Reach       string   `json:"reach"`
+	NotDecided  []string `json:"not_decided"`
+	Assumptions []string `json:"assumptions"`
+	Bounded     []string `json:"bounded"`
+}
+
+type Mutant struct {
+	Name   string   `json:"name"`
+	File   string   `json:"file"`
+	Old    string   `json:"old"`
+	New    string   `json:"new"`
+	Expect []string `json:"expect_fail"` // substrings of obligation names, at least one must fail
+	Benign bool     `json:"benign"`      // benign edit: everything must still verify
+	Props  []string `json:"properties"`
+}
+
+func readJSON(path string, into interface{}) bool {
+	b, err := os.ReadFile(path)
+	if err != nil {
+		return false
+	}
+	if err := json.Unmarshal(b, into); err != nil {
+		fmt.Fprintf(os.Stderr, "bad json %s: %v\n", path, err)
+		return false
+	}
+	return true
+}
+
+// selectContracts returns the non-trusted contracts serving a property.
+func selectContracts(P *Program, prop string) []*FuncContract {
+	var out []*FuncContract
+	for _, c := range P.contracts {
+		if c.Trusted || c.IsLemma {
+			continue
+		}
+		if hasProp(c.Props, prop) || clauseHasProp(c, prop) {
+			out = append(out, c)
+		}
+	}
+	sort.Slice(out, func(i, j int) bool { return out[i].Key < out[j].Key })
+	return out
+}
+
+func clauseHasProp(c *FuncContract, prop string) bool {
+	for _, cl := range c.Ensures {
+		if hasProp(cl.Props, prop) {
+			return true
+		}
+	}
+	for _, cl := range c.Requires {
+		if hasProp(cl.Props, prop) {
+			return true
+		}
+	}
+	for _, l := range c.Loops {
+		for _, cl := range l.Invs {
+			if hasProp(cl.Props, prop) {
+				return true
+			}
+		}
+	}
+	for _, a := range c.Asserts {
+		if hasProp(a.Clause.Props, prop) {
+			return true
+		}
+	}
+	return false
+}
+
+func filterObls(rs []*FuncResult, prop string) {
+	for _, r := range rs {
+		var keep []*Obligation
+		for _, o := range r.Obls {
+			if hasProp(o.Props, prop) {
+				keep = append(keep, o)
+			}
+		}
+		r.Obls = keep
+	}
+}
+
+func stableName(o *Obligation) bool {
+	switch o.Kind {
+	case "ensures", "inv-entry", "inv-preserved", "assert", "vacuity", "lemma":
+		return true
+	}
+	return false
+}
+
+func cmdCheck(args []string) int {
+	fs := flag.NewFlagSet("check", flag.ExitOnError)
+	repo := fs.String("repo", "/repo", "repository")
+	verif := fs.String("verif", "/verif", "verification directory")
+	prop := fs.String("prop", "", "property id")
+	tier := fs.String("tier", "quick", "quick|thorough")
+	updateBaseline := fs.Bool("update-baseline", false, "rewrite obligations.baseline.json entry for this property")
+	noEvidence := fs.Bool("no-evidence", false, "do not write evidence (used by self tests)")
+	fs.Parse(args)
+	if *prop == "" {
+		fmt.Fprintln(os.Stderr, "check: -prop required")
+		return 2
+	}
+	t0 := time.Now()
+	seed := 0
+	if s := os.Getenv("VERIF_SEED"); s != "" {
+		seed, _ = strconv.Atoi(s)
+	}
+	timeout := 10
+	if *tier == "thorough" {
+		timeout = 40
+	}
+	P := loadRepo(*repo, nil)
+	cons := selectContracts(P, *prop)
+	var results []*FuncResult
+	for _, c := range cons {
+		g0 := time.Now()
+		r := generate(P, c)
+		r.GenSecs = time.Since(g0).Seconds()
+		results = append(results, r)
+	}
+	filterObls(results, *prop)
+	lem := lemmaObligations(P, *prop)
+	results = append(results, lem...)
+	discharge(results, solveOpts{timeout: timeout, workers: runtime.NumCPU() / 2})
+
+	// baseline guard
+	var baseline map[string][]string
+	readJSON(filepath.Join(*verif, "obligations.baseline.json"), &baseline)
+	have := map[string]bool{}
+	var stable []string
+	for _, r := range results {
+		for _, o := range r.Obls {
+			have[o.Name] = true
+			if stableName(o) {
+				stable = append(stable, o.Name)
+			}
+		}
+	}
+	sort.Strings(stable)
+	if *updateBaseline {
+		if baseline == nil {
+			baseline = map[string][]string{}
+		}
+		baseline[*prop] = stable
+		b, _ := json.MarshalIndent(baseline, "", " ")
+		os.WriteFile(filepath.Join(*verif, "obligations.baseline.json"), append(b, '\n'), 0644)
+	}
+
+	var known KnownFile
+	readJSON(filepath.Join(*verif, "known_findings.json"), &known)
+
+	type failure struct {
+		name, fn, status, detail, model, query string
+		replayable                             bool
+		con                                    *FuncContract
+		obl                                    *Obligation
+	}
+	var fails []failure
+	for _, r := range results {
+		if r.Rejected != "" {
+			fails = append(fails, failure{name: r.Key + "/generation", fn: r.Key, status: "rejected", detail: r.Rejected})
+			continue
+		}
+		for _, o := range r.Obls {
+			if !o.ok() {
+				var con *FuncContract
+				if r.Gen != nil {
+					con = r.Gen.con
+				}
+				fails = append(fails, failure{name: o.Name, fn: o.Fn, status: o.Result.Status, detail: o.Result.Raw, model: o.Result.Model, query: o.Query, con: con, obl: o})
+			}
+		}
+	}
+	for _, n := range baseline[*prop] {
+		if !have[n] {
+			fails = append(fails, failure{name: n + "/binding", status: "missing", detail: "obligation recorded in obligations.baseline.json is no longer generated (contract lost its function, loop or anchor)"})
+		}
+	}
+	if len(cons) == 0 && len(lem) == 0 {
+		fails = append(fails, failure{name: *prop + "/binding", status: "missing", detail: "no contract serves this property"})
+	}
+
+	// known findings: re-prove under the excluded class
+	violations := 0
+	var knownLines, violationLines []string
+	replayDir := filepath.Join(*verif, "replay", *prop)
+	for _, f := range fails {
+		var kf *KnownFinding
+		for i := range known.Findings {
+			k := &known.Findings[i]
+			if k.Property == *prop && k.Obligation == f.name {
+				kf = k
+			}
+		}
+		if kf != nil && f.con != nil {
+			if reproveExcluding(P, f.con, f.name, kf.Class, timeout) {
+				knownLines = append(knownLines, fmt.Sprintf("KNOWN-FINDING: property=%s %s [obligation %s holds outside the listed class: %s]", *prop, kf.What, f.name, kf.Class))
+				continue
+			}
+		}
+		violations++
+		os.MkdirAll(replayDir, 0755)
+		path := filepath.Join(replayDir, mangle(f.name)+".json")
+		rep := map[string]interface{}{
+			"property": *prop, "obligation": f.name, "function": f.fn, "status": f.status,
+			"solver_output": f.detail, "model": f.model, "tier": *tier,
+		}
+		suffix := ""
+		reproduced := false
+		if f.con != nil && f.con.Replay != "" {
+			out, ok, witness := runReplay(*repo, *verif, f.con, f.obl, f.model)
+			rep["replay_output"] = out
+			rep["replay_driver"] = f.con.Replay
+			if witness != "" {
+				rep["witness"] = witness
+			}
+			reproduced = ok
+		}
+		rep["reproduced_on_real_code"] = reproduced
+		if !reproduced {
+			suffix = " no-failing-input-found"
+		}
+		if f.query != "" {
+			qpath := filepath.Join(replayDir, mangle(f.name)+".smt2")
+			os.WriteFile(qpath, []byte(f.query+"(check-sat)\n"), 0644)
+			rep["query_file"] = qpath
+		}
+		b, _ := json.MarshalIndent(rep, "", " ")
+		os.WriteFile(path, append(b, '\n'), 0644)
+		fmt.Printf("FAILED-OBLIGATION %s status=%s %s\n", f.name, f.status, firstLine(f.detail))
+		violationLines = append(violationLines, fmt.Sprintf("VIOLATION property=%s replay=%s%s", *prop, path, suffix))
+	}
+
+	// thorough: must-fail corpus for this property
+	var selftest map[string]interface{}
+	if *tier == "thorough" {
+		selftest = runMutants(*repo, *verif, *prop, timeout)
+	}
+
+	if !*noEvidence {
+		writeEvidence(*verif, *prop, *tier, seed, P, results, cons, violations, len(knownLines), time.Since(t0).Seconds(), selftest)
+	}
+	for _, l := range knownLines {
+		fmt.Println(l)
+	}
+	total, ok := 0, 0
+	for _, r := range results {
+		for _, o := range r.Obls {
+			total++
+			if o.ok() {
+				ok++
+			}
+		}
+	}
+	fmt.Printf("property %s tier %s: %d/%d obligations discharged over %d functions in %.1fs\n", *prop, *tier, ok, total, len(results), time.Since(t0).Seconds())
+	for _, l := range violationLines {
+		fmt.Println(l)
+	}
+	if violations > 0 {
+		return 1
+	}
+	return 0
+}
+
+// reproveExcluding regenerates the function with the extra assumption !class and checks one obligation.
+func reproveExcluding(P *Program, con *FuncContract, oblName, class string, timeout int) bool {
+	e, err := parseCExpr("!(" + class + ")")
+	if err != nil {
+		fmt.Fprintf(os.Stderr, "known finding class does not parse: %v\n", err)
+		return false
+	}
+	c2 := *con
+	c2.Assumes = append(append([]*Clause{}, con.Assumes...), &Clause{Label: "known_class_excluded", Src: "!(" + class + ")", Expr: e})
+	r := generate(P, &c2)
+	if r.Rejected != "" {
+		return false
+	}
+	var keep []*Obligation
+	for _, o := range r.Obls {
+		if o.Name == oblName {
+			keep = append(keep, o)
+		}
+	}
+	if len(keep) == 0 {
+		return false
+	}
+	r.Obls = keep
+	discharge([]*FuncResult{r}, solveOpts{timeout: timeout, workers: 2})
+	return keep[0].ok()
+}
+
+func writeEvidence(verif, prop, tier string, seed int, P *Program, results []*FuncResult, cons []*FuncContract, violations, knownN int, wall float64, selftest map[string]interface{}) {
+	var meta map[string]PropMeta
+	readJSON(filepath.Join(verif, "propmeta.json"), &meta)
+	pm := meta[prop]
+	total, okN := 0, 0
+	solverTime := 0.0
+	byBackend := map[string]int{}
+	var funcs []map[string]interface{}
+	var samples []map[string]interface{}
+	trusted := map[string]bool{}
+	notes := map[string]bool{}
+	maxT := 0.0
+	for _, r := range results {
+		fe := map[string]interface{}{"function": r.Key, "arith": r.Mode, "obligations": len(r.Obls), "gen_s": round3(r.GenSecs)}
+		if r.Rejected != "" {
+			fe["rejected"] = r.Rejected
+		}
+		funcs = append(funcs, fe)
+		for _, o := range r.Obls {
+			total++
+			if o.ok() {
+				okN++
+			}
+			solverTime += o.Result.Time
+			if o.Result.Time > maxT {
+				maxT = o.Result.Time
+			}
+			byBackend[o.Result.Backend]++
+			if len(samples) < 400 {
+				samples = append(samples, map[string]interface{}{"obligation": o.Name, "kind": o.Kind, "expect": o.Expect, "status": o.Result.Status, "backend": o.Result.Backend, "time_s": round3(o.Result.Time)})
+			}
+		}
+		for _, n := range r.Notes {
+			notes[n] = true
+		}
+		if r.Gen != nil {
+			for k, c := range r.Gen.usedContracts {
+				if c.Trusted {
+					trusted["assumed contract (trusted, not checked against a body): "+k] = true
+				} else {
+					trusted["callee replaced by its contract (checked separately): "+k] = true
+				}
+			}
+			if r.Gen.mode == ModeInt {
+				notes["arith int: machine integers treated as mathematical integers (no overflow) in "+r.Key] = true
+			}
+		}
+	}
+	for _, cf := range P.files {
+		for _, t := range cf.Trusted {
+			if strings.HasPrefix(t, "axiom") {
+				trusted[t+" ("+filepath.Base(filepath.Dir(cf.Path))+")"] = true
+			}
+		}
+	}
+	tb := []string{
+		"gvc translator (/verif/gvc): go/ssa NaiveForm semantics as implemented, loop cutting, contract application, SMT printing",
+		"golang.org/x/tools v0.29.0 go/packages + go/ssa; go/types",
+		"SMT solvers z3 4.8.12, z3 5.1.0 (z3-new), cvc5 1.0 (first definite answer wins)",
+		"spec functions in zz_verif_contracts.go files are the oracle (written from the property statement / Redis source conventions)",
+	}
+	for t := range trusted {
+		tb = append(tb, t)
+	}
+	sort.Strings(tb[4:])
+	var assumptions []string
+	assumptions = append(assumptions, pm.Assumptions...)
+	assumptions = append(assumptions, fmt.Sprintf("string / slice lengths are below 2^%d (64-bit address space)", maxLenBits))
+	var ns []string
+	for n := range notes {
+		ns = append(ns, n)
+	}
+	sort.Strings(ns)
+	assumptions = append(assumptions, ns...)
+	cov := map[string]interface{}{
+		"obligations":   total,
+		"discharged":    okN,
+		"checker_cmd":   fmt.Sprintf("/verif/bin/gvc check -prop %s -tier %s (per obligation: z3-new | z3 | cvc5 raced, timeout %s)", prop, tier, map[string]string{"quick": "10s+40s escalation", "thorough": "40s+160s escalation"}[tier]),
+		"trusted_base":  tb,
+		"functions":     funcs,
+		"samples":       samples,
+		"solver_time_s": round3(solverTime),
+		"max_obligation_time_s": round3(maxT),
+		"by_backend":    byBackend,
+		"bounded":       pm.Bounded,
+		"not_decided":   pm.NotDecided,
+		"reach":         pm.Reach,
+		"load_s":        round3(P.loadSeconds),
+		"known_findings_matched": knownN,
+		"explanation":   "every obligation is generated from the SSA of /repo's current working tree (packages loaded with -tags verif) and discharged by an SMT solver; vacuity covers (expect sat) are counted as obligations",
+	}
+	if pm.Bounded == nil {
+		cov["bounded"] = []string{}
+	}
+	if selftest != nil {
+		cov["selftest"] = selftest
+	}
+	ev := map[string]interface{}{
+		"property_id": prop, "tier": tier, "seed": seed, "level": "proof",
+		"coverage": cov, "assumptions": assumptions, "wall_s": round3(wall), "violations": violations,
+	}
+	os.MkdirAll(filepath.Join(verif, "evidence"), 0755)
+	b, _ := json.MarshalIndent(ev, "", " ")
+	os.WriteFile(filepath.Join(verif, "evidence", prop+".json"), append(b, '\n'), 0644)
+}
+
+func round3(f float64) float64 { return float64(int(f*1000+0.5)) / 1000 }
+
+// ---------------------------------------------------------------------------
+// must-fail corpus
+
+func loadMutants(verif, prop string) []Mutant {
+	var out []Mutant
+	files, _ := filepath.Glob(filepath.Join(verif, "selftest", "mutants", "*.json"))
+	sort.Strings(files)
+	for _, f := range files {
+		var ms []Mutant
+		if readJSON(f, &ms) {
+			for _, m := range ms {
+				if prop == "" || hasProp(m.Props, prop) {
+					out = append(out, m)
+				}
+			}
+		}
+	}
+	return out
+}
+
+func runMutant(repo string, m Mutant, timeout int) (failed []string, rejected string, err error) {
+	path := filepath.Join(repo, m.File)
+	src, e := os.ReadFile(path)
+	if e != nil {
+		return nil, "", e
+	}
+	ms := strings.Replace(string(src), m.Old, m.New, 1)
+	if ms == string(src) {
+		return nil, "", fmt.Errorf("mutation %s does not apply to %s", m.Name, m.File)
+	}
+	pats, _ := findContractPackages(repo)
+	P, e := loadProgram(repo, pats, map[string][]byte{path: []byte(ms)})
+	if e != nil {
+		return nil, "", e
+	}
+	var results []*FuncResult
+	seen := map[string]bool{}
+	for _, p := range m.Props {
+		for _, c := range selectContracts(P, p) {
+			if seen[c.Key] {
+				continue
+			}
+			seen[c.Key] = true
+			r := generate(P, c)
+			results = append(results, r)
+		}
+		results = append(results, lemmaObligations(P, p)...)
+	}
+	discharge(results, solveOpts{timeout: timeout, workers: runtime.NumCPU() / 2})
+	for _, r := range results {
+		if r.Rejected != "" {
+			rejected += r.Key + ": " + r.Rejected + "; "
+			failed = append(failed, r.Key+"/generation")
+		}
+		for _, o := range r.Obls {
+			if !o.ok() {
+				failed = append(failed, o.Name)
+			}
+		}
+	}
+	return failed, rejected, nil
+}
+
+func runMutants(repo, verif, prop string, timeout int) map[string]interface{} {
+	ms := loadMutants(verif, prop)
+	caught, escaped, benignOK, benignAlarm := 0, []string{}, 0, []string{}
+	var details []map[string]interface{}
+	for _, m := range ms {
+		failed, rej, err := runMutant(repo, m, timeout)
+		d := map[string]interface{}{"name": m.Name, "failed_obligations": failed}
+		if err != nil {
+			d["error"] = err.Error()
+			escaped = append(escaped, m.Name+" (error: "+err.Error()+")")
+			details = append(details, d)
+			continue
+		}
+		if rej != "" {
+			d["rejected"] = rej
+		}
+		if m.Benign {
+			if len(failed) == 0 {
+				benignOK++
+			} else {
+				benignAlarm = append(benignAlarm, m.Name)
+			}
+		} else {
+			hit := false
+			for _, f := range failed {
+				for _, e := range m.Expect {
+					if strings.Contains(f, e) {
+						hit = true
+					}
+				}
+				if len(m.Expect) == 0 {
+					hit = true
+				}
+			}
+			if hit {
+				caught++
+			} else {
+				escaped = append(escaped, m.Name)
+			}
+		}
+		details = append(details, d)
+	}
+	return map[string]interface{}{"mutants": len(ms), "caught": caught, "escaped": escaped, "benign_ok": benignOK, "benign_alarm": benignAlarm, "details": details}
+}
+
+func cmdSelftest(args []string) int {
+	fs := flag.NewFlagSet("selftest", flag.ExitOnError)
+	repo := fs.String("repo", "/repo", "repository")
+	verif := fs.String("verif", "/verif", "verification directory")
+	prop := fs.String("prop", "", "property id (default all)")
+	only := fs.String("only", "", "substring of mutant name")
+	fs.Parse(args)
+	ms := loadMutants(*verif, *prop)
+	bad := 0
+	for _, m := range ms {
+		if *only != "" && !strings.Contains(m.Name, *only) {
+			continue
+		}
+		failed, rej, err := runMutant(*repo, m, 10)
+		status := "CAUGHT"
+		if err != nil {
+			status = "ERROR " + err.Error()
+			bad++
+		} else if m.Benign {
+			status = "benign-ok"
+			if len(failed) > 0 {
+				status = "BENIGN-ALARM"
+				bad++
+			}
+		} else {
+			hit := false
+			for _, f := range failed {
+				for _, e := range m.Expect {
+					if strings.Contains(f, e) {
+						hit = true
+					}
+				}
+				if len(m.Expect) == 0 {
+					hit = true
+				}
+			}
+			if !hit {
+				status = "ESCAPED"
+				bad++
+			}
+		}
+		fmt.Printf("%-14s %-40s %v %s\n", status, m.Name, shortList(failed), rej)
+	}
+	if bad > 0 {
+		return 1
+	}
+	return 0
+}
+
+func shortList(l []string) []string {
+	var out []string
+	for _, s := range l {
+		if i := strings.LastIndex(s, "/pkg/"); i >= 0 {
+			s = s[i+5:]
+		}
+		out = append(out, s)
+	}
+	if len(out) > 6 {
+		out = append(out[:6], fmt.Sprintf("... %d more", len(l)-6))
+	}
+	return out
+}
+
+// lemmaObligations: pure lemmas over spec functions (contract blocks introduced by "lemma").
+func lemmaObligations(P *Program, prop string) []*FuncResult {
+	var out []*FuncResult
+	var keys []string
+	for k, c := range P.contracts {
+		if c.IsLemma && hasProp(c.Props, prop) {
+			keys = append(keys, k)
+		}
+	}
+	sort.Strings(keys)
+	for _, k := range keys {
+		out = append(out, generateLemma(P, P.contracts[k]))
+	}
+	return out
+}
